@@ -871,6 +871,7 @@ pub struct FwdStats {
 	pub delta_edge: [u64; 3],
 	pub disturbed_pairs: u64,
 	pub knowledge_lost: u64,
+	pub reforwards_after_undelivered: u64,
 }
 
 pub struct FwdOracle {
@@ -1454,6 +1455,15 @@ impl FwdOracle {
 				if let Some(d) = &p.down {
 					if d.chan == chan && d.id == m.htlc_id {
 						return Ok(()); // retransmission
+					}
+					if !d.delivered && sim.chan_details(B, d.chan).is_none() {
+						// the first update_add_htlc never reached the next hop and B no longer has that channel (closed on
+						// a stale reload): the next hop holds no signed commitment containing it, so it can never be
+						// claimed there; forwarding again is the only way to serve the payment
+						self.stats.reforwards_after_undelivered += 1;
+						let hash = p.hash;
+						self.pairs.get_mut(&hash).unwrap().down = None;
+						return self.on_emit(sim, at, from, _to, wire);
 					}
 					return Err(fail(
 						"double-forward",
